@@ -132,6 +132,7 @@ pub struct ManagedSnapshot {
     pub max_size: usize,
     pub idle: usize,
     pub users: usize,
+    pub owed: usize,
 }
 
 /// Read-only view of an unmanaged pool's internal counters.
